@@ -633,3 +633,169 @@ pub fn run_stages(seed: u64, thorough: bool) {
         }
     }
 }
+
+/// Cross-pattern and synthetic constraint families for the port-graph decomposition: the
+/// constraints that meet at an automaton state come from SEVERAL patterns (e.g. two `IsConnected`
+/// constraints that share their right end, which no single pattern can contain). Each family is
+/// emitted as a `TRG` record (node-for-node comparison with the model + propositional oracle) and
+/// as a `TRGH` record: family, a host, injective bindings of the family's keys to host nodes and
+/// the real tree, for the semantic faithfulness oracle (all satisfied edges, and the documented
+/// `make_det` reading: only the first satisfied child of a `make_det` root).
+pub fn run_tree_families(seed: u64, thorough: bool) {
+    use portmatching::Constraint;
+    let mut rng = Rng::new(seed, "pg.families");
+    let n = if thorough { 20000 } else { 2500 };
+    for _ in 0..n {
+        let mut pool: Vec<PGConstraint> = vec![];
+        let np = rng.range(2, 3);
+        for _ in 0..np {
+            let nn = rng.range(2, 4);
+            let d = random_connected(&mut rng, nn, 3, false);
+            let g = d.build();
+            let live = d.live();
+            let root = *rng.pick(&live);
+            let p = PGPattern::from_host_with_root(g, NodeIndex::new(root));
+            if let Ok(Ok(cs)) = catch(|| p.try_to_constraint_vec()) {
+                for c in cs {
+                    if !pool.contains(&c) {
+                        pool.push(c);
+                    }
+                }
+            }
+        }
+        let mut keys: Vec<PGIndexKey> = vec![];
+        for c in &pool {
+            for k in c.required_bindings() {
+                if !keys.contains(k) {
+                    keys.push(*k);
+                }
+            }
+        }
+        let conn: Vec<PGConstraint> = pool
+            .iter()
+            .filter(|c| matches!(c.predicate(), PGPredicate::IsConnected { .. }))
+            .cloned()
+            .collect();
+        if !conn.is_empty() && keys.len() >= 2 {
+            for _ in 0..rng.below(4) {
+                let base = rng.pick(&conn).clone();
+                let (lp, rp) = match base.predicate() {
+                    PGPredicate::IsConnected { left_port, right_port } => (*left_port, *right_port),
+                    _ => continue,
+                };
+                let kb = base.required_bindings();
+                let (mut kl, mut kr, mut lp2, mut rp2) = (kb[0], kb[1], lp, rp);
+                let flip = |rng: &mut Rng, p: PortOffset| match p {
+                    PortOffset::Incoming(_) => PortOffset::new_incoming(rng.below(3)),
+                    PortOffset::Outgoing(_) => PortOffset::new_outgoing(rng.below(3)),
+                };
+                match rng.below(4) {
+                    0 => {
+                        // same left end, another right end
+                        kr = *rng.pick(&keys);
+                        rp2 = flip(&mut rng, rp);
+                    }
+                    1 => {
+                        // same right end, another left end
+                        kl = *rng.pick(&keys);
+                        lp2 = flip(&mut rng, lp);
+                    }
+                    2 => {
+                        kr = *rng.pick(&keys);
+                    }
+                    _ => {
+                        kl = *rng.pick(&keys);
+                    }
+                }
+                if let Ok(c) = Constraint::try_new(
+                    PGPredicate::IsConnected { left_port: lp2, right_port: rp2 },
+                    vec![kl, kr],
+                ) {
+                    if !pool.contains(&c) {
+                        pool.push(c);
+                    }
+                }
+            }
+        }
+        let mut family: Vec<PGConstraint> = pool.iter().filter(|_| rng.chance(2, 3)).cloned().collect();
+        if family.is_empty() {
+            continue;
+        }
+        // a random rotation: the decomposition must not depend on the input order
+        let r = rng.below(family.len());
+        family.rotate_left(r);
+        let t = match catch(|| PGPredicate::to_constraints_tree(family.clone())) {
+            Ok(t) => t,
+            Err(_) => continue,
+        };
+        {
+            let mut l = Line::new("TRG");
+            l.list(&family, |l, c| enc_pgcons(l, c));
+            l.arrow();
+            enc_tree(&mut l, &t, enc_pgcons);
+            l.emit();
+        }
+        // host + injective bindings
+        let mut fkeys: Vec<PGIndexKey> = vec![];
+        for c in &family {
+            for k in c.required_bindings() {
+                if !fkeys.contains(k) {
+                    fkeys.push(*k);
+                }
+            }
+        }
+        let hn = fkeys.len() + rng.below(2);
+        let mut hd = GDesc { nodes: vec![Some((3, 3)); hn], links: vec![] };
+        let mut maps: Vec<FxHashMap<PGIndexKey, NodeIndex>> = vec![];
+        for _ in 0..4 {
+            let mut nodes: Vec<usize> = (0..hn).collect();
+            let mut m: FxHashMap<PGIndexKey, NodeIndex> = FxHashMap::default();
+            for k in &fkeys {
+                let i = rng.below(nodes.len());
+                m.insert(*k, NodeIndex::new(nodes.swap_remove(i)));
+            }
+            maps.push(m);
+        }
+        let mut used_out: Vec<(usize, usize)> = vec![];
+        let mut used_in: Vec<(usize, usize)> = vec![];
+        let mut add = |hd: &mut GDesc, o: (usize, usize), i: (usize, usize)| {
+            if o.1 < 3 && i.1 < 3 && !used_out.contains(&o) && !used_in.contains(&i) {
+                used_out.push(o);
+                used_in.push(i);
+                hd.links.push((o, i));
+            }
+        };
+        for (mi, m) in maps.iter().enumerate() {
+            for c in &family {
+                if let PGPredicate::IsConnected { left_port, right_port } = c.predicate() {
+                    if !rng.chance(if mi == 0 { 2 } else { 1 }, 3) {
+                        continue;
+                    }
+                    let kb = c.required_bindings();
+                    let (a, b) = (m[&kb[0]].index(), m[&kb[1]].index());
+                    match (left_port, right_port) {
+                        (PortOffset::Outgoing(o), PortOffset::Incoming(i)) => {
+                            add(&mut hd, (a, *o as usize), (b, *i as usize))
+                        }
+                        (PortOffset::Incoming(i), PortOffset::Outgoing(o)) => {
+                            add(&mut hd, (b, *o as usize), (a, *i as usize))
+                        }
+                        _ => {}
+                    }
+                }
+            }
+        }
+        for _ in 0..rng.below(3) {
+            let o = (rng.below(hn), rng.below(3));
+            let i = (rng.below(hn), rng.below(3));
+            add(&mut hd, o, i);
+        }
+        let mut l = Line::new("TRGH");
+        l.list(&family, |l, c| enc_pgcons(l, c));
+        hd.encode(&mut l);
+        l.list(&maps, |l, m| enc_pgmap(l, m));
+        l.arrow();
+        enc_tree(&mut l, &t, enc_pgcons);
+        l.emit();
+    }
+}
